@@ -312,6 +312,28 @@ fn array_queries<'a, T: Elem>(
         if it != want {
             bad.push(("iter".into(), json!({"expected": format!("{:?}", want), "got": format!("{:?}", it)})));
         }
+        // an exhausted iterator may be polled again (Iterator allows it; zip_longest-style walks do it): it must keep
+        // answering None, without touching anything
+        {
+            let mut itr = arr.iter();
+            let mut n = 0usize;
+            while itr.next().is_some() && n <= k + 4 {
+                n += 1;
+            }
+            let after: Vec<bool> = (0..3).map(|_| itr.next().is_some()).collect();
+            if n != k || after.iter().any(|x| *x) {
+                bad.push(("iter-polled-after-the-end".into(), json!({"items_before_none": n, "expected_items": k, "polls_after_none_returned_some": after})));
+            }
+            let mut itr = arr.iter_res();
+            let mut n = 0usize;
+            while itr.next().is_some() && n <= k + 4 {
+                n += 1;
+            }
+            let after: Vec<bool> = (0..3).map(|_| itr.next().is_some()).collect();
+            if n != k || after.iter().any(|x| *x) {
+                bad.push(("iter_res-polled-after-the-end".into(), json!({"items_before_none": n, "expected_items": k, "polls_after_none_returned_some": after})));
+            }
+        }
         let it: Vec<T::HostType> = (&*arr).into_iter().take(k + 4).collect();
         if it != want {
             bad.push(("into_iter".into(), json!({"expected": format!("{:?}", want), "got": format!("{:?}", it)})));
